@@ -858,7 +858,10 @@ def model_op(case, obs):
                 "hist": "w" * case["n"] + case["closing"], "base": case["target"], "suffixLen": case["suffix"]}
     if k == "tmpl":
         if any(w_ == ["close"] for w_ in case["writes"]):
-            return None           # close() in the middle of a template writer's life: real-code oracle only
+            # close() in the middle of a template writer's life: Writers.tmplRunC (C17_template_closed_and_used_again)
+            return {"op": "c17.tmplc", "fs": [[nm, ns] for nm, ns in obs["pre"]],
+                    "ops": [[] if w_ == ["close"] else [w_[0] + case["ext"], _stamp(w_[1]), i]
+                            for i, w_ in enumerate(case["writes"])]}
         case, obs, _ = _tm_view(case, obs)
         return {"op": "c17.tmpl", "fs": [[nm, ns] for nm, ns in obs["pre"]],
                 "writes": [[key + case["ext"], _stamp(sec), i] for i, (key, sec) in enumerate(case["writes"])]}
@@ -919,6 +922,10 @@ def compare(case, obs, m):
             rf[nm] = [n for _, n in c] if isinstance(c, list) else c
         if mf != rf:
             return f"directory: real {rf} vs model {mf}"
+        if "returned" in m:
+            real_ret = [o in ("ok", "closed") for o in obs["outcomes"]]
+            if real_ret != m["returned"]:
+                return f"calls that returned normally: real {real_ret} vs model {m['returned']} (outcomes {obs['outcomes']})"
         return None
     if k == "frames":
         if "records" in obs and obs["records"] != m["records"]:
